@@ -29,6 +29,8 @@ THEOREMS = ["Econf.C03_lookup", "Econf.C03_nothing_else", "Econf.C03_no_duplicat
             "LeafKf.EntMem.ptr_str", "LeafKf.EntMem.reblock'", "LeafKf.GlMem.fst_unique", "LeafKf.me_newkeys_inv",
             # merge_existing_groups whole: the outer loop over the base, against the model's mergeExisting
             "LeafKf.C_merge_existing_groups", "LeafKf.mo_round", "LeafKf.mo_first", "LeafKf.meUpTo_model", "LeafKf.cpy_meUpTo",
+            # the three calls in sequence, as econf_mergeFiles makes them: array = mergeEntries, group list = groupsOf
+            "LeafKf.C_merge3", "LeafKf.C_merge3_mergeFiles", "LeafKf.EntMem.carry", "LeafKf.SrcMem.transfer", "LeafKf.Example.run_merge3",
             "LeafKf.insert_nogroup_null", "LeafKf.add_new_groups_null", "LeafKf.merge_existing_groups_null"]
 RULE = ("pairs of entry lists over {group-less,A,B}x{x,y}: exhaustive up to the tier's length bound, built by parsing and by the setters "
         "on all constructor kinds, plus random larger pairs, pairs with valueless definitions, and pairs in which an input is the result of "
